@@ -635,7 +635,7 @@ func (fx *FnCtx) sliceVal(v Val, lo, hi *Val) Val {
 	if hi != nil {
 		h = hi.T
 	}
-	t := fmt.Sprintf("(mk_%s (arr_%s %s) (+ (off_%s %s) %s) (- %s %s) (- (cap_%s %s) %s))", v.S, v.S, v.T, v.S, v.T, l, h, l, v.S, v.T, l)
+	t := fmt.Sprintf("(mk_%s (arr_%s %s) (+ (off_%s %s) %s) (- %s %s) (- (cap_%s %s) %s) (bid_%s %s))", v.S, v.S, v.T, v.S, v.T, l, h, l, v.S, v.T, l, v.S, v.T)
 	return Val{t, v.S, v.Ty}
 }
 
@@ -754,6 +754,9 @@ func (fx *FnCtx) specCall(env *Env, c *SCall) Val {
 	case "arr": // arr(s): backing array view; off(s)
 		v := arg(0)
 		return Val{"(arr_" + v.S + " " + v.T + ")", "(Array Int " + fx.elemSortOfSlice(v) + ")", nil}
+	case "bid": // backing-array identity of a slice (0 for nil)
+		v := arg(0)
+		return Val{"(bid_" + v.S + " " + v.T + ")", "Int", types.NewPointer(types.NewStruct(nil, nil))}
 	case "off":
 		v := arg(0)
 		return Val{"(off_" + v.S + " " + v.T + ")", "Int", tInt}
